@@ -145,7 +145,9 @@ def sub(req: dict, timeout: int = 300) -> t.Any:
 
 
 REG_STATES = ['nothing', 'thread-only', 'process-only', 'process-no-manager', 'both', 'thread-shutdown', 'process-shutdown',
-              'both-thread-shutdown', 'both-process-shutdown']
+              'both-thread-shutdown', 'both-process-shutdown',
+              # histories on one DAG object: successful run with both pools, pool shut down, same object run again
+              'run-then-thread-shutdown', 'run-then-process-shutdown']
 
 
 def needs(spec: dict) -> t.Tuple[bool, bool]:
@@ -154,8 +156,8 @@ def needs(spec: dict) -> t.Tuple[bool, bool]:
 
 
 def pool_ok(state: str, need_thread: bool, need_process: bool) -> bool:
-    thread_ok = state in ('thread-only', 'both', 'both-process-shutdown')
-    process_ok = state in ('process-only', 'both', 'both-thread-shutdown')
+    thread_ok = state in ('thread-only', 'both', 'both-process-shutdown', 'run-then-process-shutdown')
+    process_ok = state in ('process-only', 'both', 'both-thread-shutdown', 'run-then-thread-shutdown')
     return (thread_ok or not need_thread) and (process_ok or not need_process)
 
 
